@@ -220,6 +220,95 @@ impl Item {
     }
 }
 
+/// a sink that accepts `left` bytes and then fails
+struct FailAfter {
+    left: usize,
+}
+
+impl Write for FailAfter {
+    fn write(&mut self, buf: &[u8]) -> std::io::Result<usize> {
+        if self.left == 0 {
+            return Err(std::io::Error::new(std::io::ErrorKind::WouldBlock, "sink full"));
+        }
+        let n = buf.len().min(self.left);
+        self.left -= n;
+        Ok(n)
+    }
+    fn flush(&mut self) -> std::io::Result<()> {
+        Ok(())
+    }
+}
+
+/// Two face changes on ONE encoder: the first written into a sink that takes k bytes and then fails (None: it is
+/// written completely), the second into a working sink. What the second wrote must be read back as the second face
+/// change - an encoder is a long-lived object and a failed write is an ordinary event for it.
+fn encoder_history_case(a: &Item, b: &Item, k: Option<usize>) -> Result<(), (String, String)> {
+    let r = catch(|| {
+        let mut enc = true_colour();
+        let mut sink = FailAfter { left: k.unwrap_or(usize::MAX) };
+        for cmd in a.commands() {
+            let _ = enc.encode(&mut sink, cmd);
+        }
+        let mut out = Vec::new();
+        for cmd in b.commands() {
+            enc.encode(&mut out, cmd).map_err(|e| format!("encode failed: {e:?}"))?;
+        }
+        Ok::<_, String>(out)
+    });
+    let what = match k {
+        None => "written completely".to_string(),
+        Some(k) => format!("written into a sink that failed after {k} bytes"),
+    };
+    match r {
+        Err(p) => Err((format!("encoder-history:{}", p.key()), format!("encode panicked: {}", p.message))),
+        Ok(Err(e)) => Err(("encoder-history:encode-error".into(), e)),
+        Ok(Ok(out)) => match decode_parts(&out, &[out.len()]) {
+            Err(e) => Err(("encoder-history:decode".into(), e)),
+            Ok(got) => {
+                let want = b.expected();
+                if got != want {
+                    Err((
+                        format!("encoder-history:{}", diff_kind(&want, &got)),
+                        format!("after {} {}, the same encoder wrote {:?} for {}: read back as {}, expected {}", show_cmds(&a.commands()), what, esc(&out), show_cmds(&b.commands()), show_cmds(&got), show_cmds(&want)),
+                    ))
+                } else {
+                    Ok(())
+                }
+            }
+        },
+    }
+}
+
+fn encoder_history(viol: &Violations) -> u64 {
+    let m = ModSpec::default();
+    let red = Some([255u8, 0u8, 0u8]);
+    let items: Vec<Item> = vec![
+        Item::Modify(ModSpec { fg: red, ul: Some(3), ..m }),
+        Item::Modify(ModSpec { bold: Some(true), ..m }),
+        Item::Modify(m),
+        Item::Modify(ModSpec { reset: true, ..m }),
+        Item::Modify(ModSpec { bg: Some([1, 2, 3]), italic: Some(false), ulc: Some([9, 8, 7]), ..m }),
+        Item::Face(FaceSpec::default()),
+        Item::Face(FaceSpec { fg: Some([1, 128, 255]), bg: Some([0, 0, 0]), flags: 23, ul: 3 }),
+    ];
+    let mut n = 0u64;
+    for a in &items {
+        let full = match encode_all(a.commands()) {
+            Ok(b) => b.len(),
+            Err(_) => continue,
+        };
+        for b in &items {
+            for k in (0..full).map(Some).chain(std::iter::once(None)) {
+                n += 1;
+                if let Err((key, detail)) = encoder_history_case(a, b, k) {
+                    viol.add(key, detail, json!({"kind": "encoder-history", "first": a, "second": b, "sink_accepts": k}));
+                }
+            }
+        }
+    }
+    n
+}
+
 fn true_colour() -> TTYEncoder {
     TTYEncoder::new(TerminalCaps { depth: ColorDepth::TrueColor, glyphs: false, kitty_keyboard: false })
 }
@@ -479,6 +568,8 @@ struct Sink {
     face: Face,
     wraps: bool,
     cells: Vec<Cell>,
+    /// out of space once this many cells are held (`put_cell` answers false and ignores the cell) until rewound
+    cap: Option<usize>,
 }
 
 impl CellWrite for Sink {
@@ -495,9 +586,58 @@ impl CellWrite for Sink {
         std::mem::replace(&mut self.wraps, wraps)
     }
     fn put_cell(&mut self, cell: Cell) -> bool {
+        if matches!(self.cap, Some(c) if self.cells.len() >= c) {
+            return false;
+        }
         self.cells.push(cell);
         true
     }
+}
+
+/// A target that runs out of space and is rewound: the history is written (under `parts`) into a sink that holds
+/// `cap` cells, then the caller makes room again (as `TerminalWriter::set_cursor` does for a surface) and writes one
+/// more character through the same writer. The cells that fitted and the late cell must have the faces SGR semantics
+/// give - the writer has seen every sequence, whether or not the text between them found room.
+fn check_history_full_target(hist: &[SgrOp], parts: &[usize], cap: usize, pal: &[RGBA; 16]) -> Result<(), (String, String)> {
+    let bytes: Vec<u8> = hist.iter().flat_map(op_bytes).collect();
+    let want = model_faces(hist, pal);
+    let r = catch(|| {
+        let mut w = Sink { cap: Some(cap), ..Sink::default() }.tty_writer();
+        let mut off = 0;
+        for p in parts {
+            w.write_all(&bytes[off..off + p]).map_err(|e| format!("write failed: {e}"))?;
+            off += p;
+        }
+        w.parent().cap = None;
+        let mut probe = [0u8; 4];
+        w.write_all(TEXT.encode_utf8(&mut probe).as_bytes()).map_err(|e| format!("write failed: {e}"))?;
+        let sink = std::mem::take(w.parent());
+        Ok::<_, String>(sink.cells)
+    });
+    let cells = match r {
+        Err(p) => return Err(("full-target:panic".into(), format!("writer panicked: {} ({}:{})", p.message, p.file, p.line))),
+        Ok(Err(e)) => return Err(("full-target:writer-failure".into(), e)),
+        Ok(Ok(c)) => c,
+    };
+    let show = || format!("bytes {:?} written as {:?} into a target with room for {cap} cell(s), then room is made and one more character is written", esc(&bytes), parts);
+    let kept = cap.min(want.len());
+    if cells.len() != kept + 1 {
+        return Err(("full-target:cell-count".into(), format!("{}: {} cells recorded, expected {}", show(), cells.len(), kept + 1)));
+    }
+    let final_want = want.last().copied().unwrap_or_default();
+    for (i, cell) in cells.iter().enumerate() {
+        let w = if i < kept { want[i] } else { final_want };
+        if !matches!(cell.kind(), CellKind::Char(c) if *c == TEXT) {
+            return Err(("full-target:cell-content".into(), format!("{}: cell {i} is {:?}", show(), cell.kind())));
+        }
+        if cell.face() != w {
+            return Err((
+                format!("full-target:face:{}", face_diff(&w, &cell.face())),
+                format!("{}: cell {i} has Face({}), SGR semantics give Face({w})", show(), cell.face()),
+            ));
+        }
+    }
+    Ok(())
 }
 
 /// The SGR tokens of the alphabet: the codes the library's SGR interpreter has an arm for
@@ -903,6 +1043,7 @@ pub fn run(ctx: &Ctx) -> Result<Report, String> {
     // ---- (b) histories ---------------------------------------------------------------
     let pal = palette_probe().map_err(|e| format!("palette probe: {e}"))?;
     let palette_checks = palette_consistency(&pal, &viol);
+    let encoder_histories = encoder_history(&viol);
     let traces = AtomicU64::new(0);
     let ops2 = ops_up_to(&TOKENS, 2);
     // thorough: deep enough to close the state graph (the BFS stops at the fixpoint)
@@ -921,6 +1062,20 @@ pub fn run(ctx: &Ctx) -> Result<Report, String> {
             }
         });
         traces.fetch_add(n, Ordering::Relaxed);
+        if key.is_some() && !hist.is_empty() {
+            // the same history into a target that is full after 0 / 1 cells and is rewound afterwards
+            let lens: Vec<usize> = hist.iter().map(|op| op_bytes(op).len()).collect();
+            let total: usize = lens.iter().sum();
+            for cap in [0usize, 1] {
+                for parts in [vec![total], lens.clone(), vec![1; total]] {
+                    traces.fetch_add(1, Ordering::Relaxed);
+                    if let Err((kind, detail)) = check_history_full_target(hist, &parts, cap, &pal) {
+                        viol.add(format!("sgr-history:{kind}"), detail, json!({"kind": "history", "ops": hist, "parts": parts, "full_target_cap": cap}));
+                        key = None;
+                    }
+                }
+            }
+        }
         if key.is_some() && !hist.is_empty() {
             samples.offer(crate::engine::util::hash64(hist) | 4, || {
                 json!({"history": hist, "cell_faces": show_faces(&model_faces(hist, &pal))})
@@ -988,6 +1143,7 @@ pub fn run(ctx: &Ctx) -> Result<Report, String> {
         .set("three_param_sequences_agreeing", three_ok.load(Ordering::Relaxed))
         .set("two_step_histories_with_three_param_sequence", two_step)
         .set("palette_consistency_checks", palette_checks)
+        .set("encoder_histories", encoder_histories)
         .set("roundtrip_items", items.load(Ordering::Relaxed))
         .set("roundtrip_decodes", runs.load(Ordering::Relaxed))
         .set("roundtrip_spaces", Value::Object(sizes))
@@ -1003,6 +1159,15 @@ pub fn run(ctx: &Ctx) -> Result<Report, String> {
 }
 
 pub fn replay(w: &Value) -> Result<(bool, String), String> {
+    if w["kind"].as_str() == Some("encoder-history") {
+        let a: Item = serde_json::from_value(w["first"].clone()).map_err(|e| format!("first: {e}"))?;
+        let b: Item = serde_json::from_value(w["second"].clone()).map_err(|e| format!("second: {e}"))?;
+        let k = w["sink_accepts"].as_u64().map(|k| k as usize);
+        return Ok(match encoder_history_case(&a, &b, k) {
+            Ok(()) => (false, format!("{} then {} on one encoder: the second is read back as written", show_cmds(&a.commands()), show_cmds(&b.commands()))),
+            Err((kind, detail)) => (true, format!("[{kind}] {detail}")),
+        });
+    }
     let parts: Vec<usize> = serde_json::from_value(w["parts"].clone()).map_err(|e| format!("parts: {e}"))?;
     match w["kind"].as_str() {
         Some("roundtrip") => {
@@ -1053,6 +1218,12 @@ pub fn replay(w: &Value) -> Result<(bool, String), String> {
                     Err(e) => e,
                 }
             );
+            if let Some(cap) = w["full_target_cap"].as_u64() {
+                return Ok(match check_history_full_target(&hist, &parts, cap as usize, &pal) {
+                    Ok(()) => (false, format!("{head}\n(target with room for {cap} cell(s), then rewound) agrees")),
+                    Err((kind, detail)) => (true, format!("{head}\n[{kind}] {detail}")),
+                });
+            }
             Ok(match check_history(&hist, &parts, &pal) {
                 Ok(_) => (false, format!("{head}\nagrees")),
                 Err((kind, detail)) => (true, format!("{head}\n[{kind}] {detail}")),
